@@ -260,3 +260,7 @@ def check_product_by_position(res, B, elems, xs, case, sub, ops, tol=1e-9):
                     break
         except NotImplementedError:
             continue
+        except RuntimeError as ex:
+            if "unavailable" in str(ex):
+                continue  # an operation the product (or a factor) does not offer
+            raise
